@@ -249,7 +249,7 @@ Section Model.
       let fs := get_fs st o f in
       let ft := feat (cls_of st o) f in
       if negb (fs_enabled fs) then Some (true, st)
-      else if (0 <? fs_rc fs)%Z then Some (false, st)
+      else if (1 <? fs_rc fs)%Z then Some (false, st)
       else
         match loop_all (fun g s => decr_with (disable n) o g s) (f_self ft) st with
         | None => None
